@@ -5,7 +5,7 @@ from ..runner import Env, Outcome, Violation
 from ..server import idle_check as IC
 from ..server import lifecycle_props as LP
 
-THEOREMS = ["C26_source_shape", "C26_single_loop", "C26_tick_accounting", "C26_no_lost_send", "C26_released_only_when_quiet",
+THEOREMS = ["C26_source_shape", "C26_single_loop", "C26_tick_accounting", "C26_no_lost_send", "C26_released_only_when_quiet", "C26_no_lost_send_atomic_store",
             "C26_refuted_premature_idle", "C26_refuted_premature_idle_lost", "C26_refuted_send_window", "C26_refuted",
             "C26_idleSound_is_C03", "C26_lifecycle_constants", "C26_cas_unique_owner", "C26_crash_timeout",
             "C26_dbos_check_then_send_window"]
@@ -26,6 +26,10 @@ EXPLANATION = (
     "from the sources on every run (GenLifecycle). Search: monitors on the observation log only (single loop, lock sections, busy releases "
     "classified by the truthfulness of the last idle announcement, every accepted send processed, no step twice)."
 )
+LEVEL_TEXT = ("proof (Lean 4) over the lifecycle model M7 — in-process IdleReleaseDecorator and the DBOS lifecycle row/protocol — "
+              "+ per-action correspondence with the real in-process server stack and the real SqliteRunLifecycleLock + monitors; "
+              "PARTIAL for the DBOS half: dbos/asyncpg/sqlalchemy are absent (DBOSIdleReleaseDecorator runs over a stand-in inner runtime, "
+              "the PostgreSQL lock is extracted, not run)")
 ASSUMPTIONS = LP.COMMON_ASSUMPTIONS + [
     "C26_dbos_check_then_send_window is a model-only witness (a message sent to a workflow that has exited is assumed dropped when _do_resume purges its DBOS state); not claimed as a finding",
 ]
@@ -43,8 +47,8 @@ def run(env: Env) -> Outcome:
                 "memory/sqlite store, 1/3 with scheduler-controlled store suspension, 1/4 with work longer than idle_timeout and retries); "
                 "non-trivial = at least one release and one reload; distinct by (case, schedule)")
     LP.run_malformed(out)
-    LP.run_inprocess(env, out, "C26", env.budget(30, 600), WITNESSES)
-    LP.run_row_corr(env, out, env.budget(400, 8000))
+    LP.run_inprocess(env, out, "C26", env.budget(30, 2400), WITNESSES)
+    LP.run_row_corr(env, out, env.budget(400, 40000))
     o = LP.run_dbos_standin(out, create_row=True)
     tl = {t["tag"]: t for t in o["timeline"]}
     if not (tl.get("after_idle", {}).get("row", "").startswith("row=released") and tl.get("after_send_99", {}).get("result") == [1, 99]
